@@ -96,13 +96,14 @@ theorem map_error' {ε α β : Type} (f : α → β) (e : ε) : (Except.error e 
 /-! ### `_serialize_composite` -/
 
 theorem nestedSer_refines (o : Opts) (hs : o.Sound) (inner : Buf → Nat → Except Err W)
-    (spec : Except SerErr (List Bool)) (isDelim fixed : Bool) (maxB : Nat)
+    (spec : Except SerErr (List Bool)) (isDelim fixed : Bool) (minB maxB : Nat)
     (hfn : FnOK inner spec maxB) (hm : maxB % 8 = 0)
     (hfix : fixed = true → ∀ bits, spec = .ok bits → bits.length = maxB)
+    (hlen : ∀ bits, spec = .ok bits → minB ≤ bits.length ∧ bits.length ≤ maxB)
     (cap : Nat) (d : AOff) (buf : Buf) (off : Nat) (hw : WF buf) (hcap : cap ≤ buf.length)
     (hal : off % 8 = 0) (hd : Adm d off)
     (hroom : off + (if isDelim then 32 else 0) + maxB ≤ 8 * cap) :
-    SerRefines (nestedSer o inner isDelim fixed maxB cap d buf off)
+    SerRefines (nestedSer o inner isDelim fixed minB maxB cap d buf off)
       (if isDelim then spec.map (fun bs => natToBits 32 (bs.length / 8) ++ bs) else spec) buf off := by
   have hsz : (maxB + 7) / 8 = maxB / 8 := by omega
   cases isDelim with
@@ -112,6 +113,7 @@ theorem nestedSer_refines (o : Opts) (hs : o.Sound) (inner : Buf → Nat → Exc
     have hsub := hfn (buf.drop (off / 8)) (maxB / 8) (WF_drop hw _) (by simp [List.length_drop]; omega) (by omega)
     unfold nestedSer
     simp only [Bool.false_eq_true, if_false, false_and, hsz]
+    rw [assertC_ok o hal, assertC_ok o (show off / 8 + maxB / 8 ≤ cap by omega)]
     cases spec with
     | error e =>
       simp only [SerRefines] at hsub ⊢
@@ -119,9 +121,13 @@ theorem nestedSer_refines (o : Opts) (hs : o.Sound) (inner : Buf → Nat → Exc
     | ok bits =>
       simp only [SerRefines] at hsub ⊢
       obtain ⟨h8, sub', hin, hwr⟩ := hsub
+      have hl := hlen bits rfl
       rw [hin]
+      dsimp only
+      rw [assertC_ok o (show minB ≤ bits.length / 8 * 8 ∧ bits.length / 8 * 8 ≤ maxB by omega),
+        assertC_ok o (show off + bits.length / 8 * 8 ≤ cap * 8 by omega)]
       refine ⟨buf.take (off / 8) ++ sub', ?_, ?_⟩
-      · dsimp only; congr 2; omega
+      · congr 2; omega
       · have := wrote_sub (by omega : off / 8 ≤ buf.length) hwr
         have e : 8 * (off / 8) = off := by omega
         rwa [e] at this
@@ -141,6 +147,7 @@ theorem nestedSer_refines (o : Opts) (hs : o.Sound) (inner : Buf → Nat → Exc
         (by simp [List.length_drop, hw1.len]; omega) (by omega)
       unfold nestedSer
       simp only [if_true, hsz, hb1, not_true_eq_false, and_false, if_false]
+      rw [assertC_ok o (show (off + 32) % 8 = 0 by omega), assertC_ok o (show (off + 32) / 8 + maxB / 8 ≤ cap by omega)]
       cases spec with
       | error e =>
         simp only [SerRefines, map_error'] at hsub ⊢
@@ -148,10 +155,14 @@ theorem nestedSer_refines (o : Opts) (hs : o.Sound) (inner : Buf → Nat → Exc
       | ok bits =>
         simp only [SerRefines, map_ok'] at hsub ⊢
         obtain ⟨h8, sub', hin, hwr⟩ := hsub
+        have hl := hlen bits rfl
         rw [hin]
+        dsimp only
+        rw [assertC_ok o (show minB ≤ bits.length / 8 * 8 ∧ bits.length / 8 * 8 ≤ maxB by omega),
+          assertC_ok o (show off + 32 + bits.length / 8 * 8 ≤ cap * 8 by omega)]
         have hbl := hfix rfl bits rfl
         refine ⟨b1.take ((off + 32) / 8) ++ sub', ?_, ?_⟩
-        · dsimp only; simp only [List.length_append, natToBits_length]; congr 2; omega
+        · simp only [List.length_append, natToBits_length]; congr 2; omega
         · have h2 := wrote_sub (by rw [hw1.len]; omega : (off + 32) / 8 ≤ b1.length) hwr
           have e : 8 * ((off + 32) / 8) = off + 32 := by omega
           rw [e] at h2
@@ -164,6 +175,7 @@ theorem nestedSer_refines (o : Opts) (hs : o.Sound) (inner : Buf → Nat → Exc
         (by simp [List.length_drop]; omega) (by omega)
       unfold nestedSer
       simp only [if_true, hsz, Bool.false_eq_true, if_false, not_false_eq_true, and_self]
+      rw [assertC_ok o (show (off + 32) % 8 = 0 by omega), assertC_ok o (show (off + 32) / 8 + maxB / 8 ≤ cap by omega)]
       cases spec with
       | error e =>
         simp only [SerRefines, map_error'] at hsub ⊢
@@ -171,7 +183,10 @@ theorem nestedSer_refines (o : Opts) (hs : o.Sound) (inner : Buf → Nat → Exc
       | ok bits =>
         simp only [SerRefines, map_ok'] at hsub ⊢
         obtain ⟨h8, sub', hin, hwr⟩ := hsub
+        have hl := hlen bits rfl
         rw [hin]
+        dsimp only
+        rw [assertC_ok o (show minB ≤ bits.length / 8 * 8 ∧ bits.length / 8 * 8 ≤ maxB by omega)]
         have hk : (off + 32) / 8 ≤ buf.length := by omega
         have h1 := wrote_sub hk hwr
         have e : 8 * ((off + 32) / 8) = off + 32 := by omega
@@ -182,12 +197,13 @@ theorem nestedSer_refines (o : Opts) (hs : o.Sound) (inner : Buf → Nat → Exc
         cases hlit : o.little with
         | true =>
           simp only [if_true]
-          obtain ⟨r, hr, hl, hwf, hbits⟩ := memmove_frame (buf.take ((off + 32) / 8) ++ sub')
+          obtain ⟨r, hr, hl', hwf, hbits⟩ := memmove_frame (buf.take ((off + 32) / 8) ++ sub')
             (objRepLE (bits.length / 8) 8) (off / 8) 4 (by rw [length_objRepLE]; omega) (by rw [h1.len]; omega)
           simp only [hr, liftP]
+          rw [assertC_ok o (show off + 32 + bits.length / 8 * 8 ≤ cap * 8 by omega)]
           refine ⟨r, ?_, ?_⟩
           · simp only [List.length_append, natToBits_length]; congr 2; omega
-          · apply patch_wrote (by simp) h1 hl (hwf (WF_objRepLE _ _))
+          · apply patch_wrote (by simp) h1 hl' (hwf (WF_objRepLE _ _))
             intro i
             rw [hbits i]
             by_cases hA : off ≤ i ∧ i < off + 32
@@ -198,12 +214,13 @@ theorem nestedSer_refines (o : Opts) (hs : o.Sound) (inner : Buf → Nat → Exc
             · rw [if_neg (by omega), if_neg hA]
         | false =>
           simp only [Bool.false_eq_true, if_false]
-          obtain ⟨r, hr, hl, hwf, hbits⟩ := setUxx_spec false (buf.take ((off + 32) / 8) ++ sub') cap off
+          obtain ⟨r, hr, hl', hwf, hbits⟩ := setUxx_spec false (buf.take ((off + 32) / 8) ++ sub') cap off
             (bits.length / 8) 32 (by rw [h1.len]; exact hcap) (by omega)
           simp only [hr, chk_ok]
+          rw [assertC_ok o (show off + 32 + bits.length / 8 * 8 ≤ cap * 8 by omega)]
           refine ⟨r, ?_, ?_⟩
           · simp only [List.length_append, natToBits_length]; congr 2; omega
-          · apply patch_wrote (by simp) h1 hl hwf
+          · apply patch_wrote (by simp) h1 hl' hwf
             intro i
             rw [hbits i]
             by_cases hA : off ≤ i ∧ i < off + 32
@@ -212,12 +229,12 @@ theorem nestedSer_refines (o : Opts) (hs : o.Sound) (inner : Buf → Nat → Exc
 
 /-! ### the function skeleton -/
 
-theorem topSer_fnOK (o : Opts) (maxB : Nat) (body : Nat → Buf → Except Err W)
+theorem topSer_fnOK (o : Opts) (minB maxB : Nat) (body : Nat → Buf → Except Err W)
     (specBody : Except SerErr (List Bool))
     (hbody : ∀ sub capS, WF sub → capS ≤ sub.length → maxB ≤ 8 * capS → SerRefines (body capS sub) specBody sub 0)
-    (hlen : ∀ bits, specBody = .ok bits → padTo 8 bits.length ≤ maxB)
+    (hlen : ∀ bits, specBody = .ok bits → minB ≤ padTo 8 bits.length ∧ padTo 8 bits.length ≤ maxB)
     (h0 : maxB = 0 → specBody = .ok []) :
-    FnOK (topSer o maxB body) (specBody.map fun bs => bs ++ zeros (padLen 8 bs.length)) maxB := by
+    FnOK (topSer o minB maxB body) (specBody.map fun bs => bs ++ zeros (padLen 8 bs.length)) maxB := by
   intro sub capS hw hc hmx
   unfold topSer
   by_cases hz : maxB = 0
@@ -238,12 +255,15 @@ theorem topSer_fnOK (o : Opts) (maxB : Nat) (body : Nat → Buf → Except Err W
       have hl := hlen bits rfl
       obtain ⟨b2, hb2, hw2⟩ := padSer_wrote o 8 capS b1 (0 + bits.length) (Or.inr rfl) (by rw [hw1.len]; exact hc)
         (by simp only [Nat.zero_add]; omega)
-      simp only [map_ok', hb1, hb2, zeros_length]
       have hp8 : (bits.length + padLen 8 bits.length) % 8 = 0 := by
         have := padTo_mod (a := 8) (Or.inr rfl) bits.length
         simpa [padTo] using this
+      simp only [Nat.zero_add, zeros_length] at hb2
+      simp only [map_ok', hb1, Nat.zero_add, hb2]
+      rw [assertC_ok o (show minB ≤ bits.length + padLen 8 bits.length ∧ bits.length + padLen 8 bits.length ≤ maxB by
+          simpa [padTo] using hl), assertC_ok o hp8]
       refine ⟨by simpa using hp8, b2, ?_, ?_⟩
-      · simp only [Nat.zero_add, List.length_append, zeros_length]
+      · simp only [List.length_append, zeros_length]
       · have := hw1.trans hw2
         simpa using this
 
